@@ -3,7 +3,7 @@ ENGINES = {
     "ugm": dict(
         path="harness/ugm.go harness/ugm_gen.go coq/Ugm coq/Oracles/UgmCheck.v coq/Props/C05.v",
         about="Gallina model of ugm.Manager / UserTracker / GroupTracker / QueueTracker, enforcement and conservation theorems, reload exactness refuted + partial, step-wise correspondence and oracles through vm_compute",
-        n=dict(quick=100, thorough=1500), shards=dict(quick=1, thorough=4),
+        n=dict(quick=100, thorough=1000), shards=dict(quick=1, thorough=4),
         kinds={
             1: dict(cls="corr", props=["C05"], what="ugm model and implementation disagree on a Manager call (state after the call or returned value), for every map iteration order"),
             2: dict(cls="oracle", props=["C05"], what="a scheduler-decided increase pushed user/group usage over a configured limit"),
